@@ -22,7 +22,7 @@ ASSUMPTIONS = [
     "observable state = variable count and list, index maps on a tuple box, objective and constraint data, QUBO (both modes), stored feasible solution, routes decoded from it",
     "the path-based route sampler is re-seeded identically for both twins (its randomness is C17's subject)",
 ]
-PARTIAL = ["route decoding is not an operation of the flag-level machine (it reads no cache); the path-based object keeps no caches and is covered by the twin-run oracle only"]
+PARTIAL = ["the path-based object keeps no caches and is covered by the twin-run oracle only"]
 TRUSTED = ["C14 sequence-based reset-site theorem assumes unique node names (guaranteed by add_node; refuted in Lean without it)"]
 BUDGET_S = {"quick": 150, "thorough": 1500}
 QUERIES = ["n", "idx", "tup", "obj", "con", "qubo_o", "qubo_f", "routes"]
@@ -417,6 +417,21 @@ def correspond_flags(res, drv, case):
                 np.random.seed(case.get("seed", 0))
                 o.make_feasible(VU.val(op[1]))
                 out = ("heur", "ok")
+            elif kind == "routes":
+                # route decoding is an operation of the flag machine: it enumerates lazily and (sequence) reads the cached fixed values.
+                # Vector: the stored solution (possibly stale after a mutator), or a 0/1 vector of the current / another length
+                sol = o.feasible_solution
+                n_now = int(o.num_variables) if o.variables_enumerated else rnd.randint(0, 6)
+                if sol is not None and rnd.random() < 0.7:
+                    x = [int(round(float(v))) for v in np.asarray(sol).ravel()]
+                else:
+                    x = [rnd.choice([0, 0, 1]) for _ in range(rnd.choice([n_now, n_now, max(n_now - 1, 0), n_now + 1]))]
+                ops.append(f"dec {len(x)} " + " ".join(str(v) for v in x))
+                r = o.get_routes(np.array(x, dtype=float))
+                if form == "seq":
+                    out = ("routes", [[int(t) for t in route] for route in r])
+                else:
+                    out = ("routes", [[(int(st[0]), F(st[1])) for st in route] for route in r])
             elif kind == "tp":
                 ops.append(f"tp {len(op[1])} " + " ".join(op[1]))
                 o.add_time_points([VU.val(t) for t in op[1]])
@@ -516,6 +531,14 @@ def correspond_flags(res, drv, case):
                 iA = out[1] if out[1] else []
                 if mb != out[2] or (mA or []) != iA or mR != out[3] or ((rows, cols) != out[4] and len(out[2]) > 0):
                     res.disagree(what, (out[2], out[4]), (mb, (rows, cols)))
+        elif out[0] == "routes":
+            t0 = MU.Toks(tk[1:])
+            if form == "seq":
+                mr = t0.lst(lambda: t0.lst(t0.nat))
+            else:
+                mr = t0.lst(lambda: t0.lst(lambda: (t0.nat(), Fraction(t0.tok()))))
+            if mr != out[1]:
+                res.disagree(what, out[1], mr)
         elif out[0] == "qubo":
             if tk[1] != "ok" or int(tk[2]) != out[1] or Fraction(tk[4]) != out[2] or Fraction(tk[5]) != out[3]:
                 res.disagree(what, out[1:], tk[1:])
@@ -536,6 +559,9 @@ def correspond_flags(res, drv, case):
     if isol != msolv:
         res.disagree(f"{form} flag machine: stored solution after the history", isol, msolv)
     res.features.append("flag-machine:compared")
+    for x in impl:
+        if x[0][0] == "routes":
+            res.features.append("flag-machine:decode-" + ("raised" if x[0][1:2] == ("raised",) else "returned"))
     if any(x[0][1:2] == ("raised",) for x in impl):
         res.features.append("flag-machine:some-call-raised")
         if impl[-1][0][1:2] != ("raised",):
